@@ -13,6 +13,7 @@
  *   closefd:FD
  *   tree:SPEC     build a process tree, see below; the root continues with the next op
  *   fds:PATH      write the list of open descriptors (fd dev ino cloexec) to PATH
+ *   fdsfd:FD      the same, written to descriptor FD (the list includes FD itself)
  * tree SPEC: node* ; node := flag* '(' node* ')'
  *   flags: i ignore signals, s setsid, g setpgid(0,0), d double fork (intermediate exits -> orphan),
  *          l linger 60 s (default: exit at once after creating its children), w wait for children,
@@ -110,11 +111,17 @@ static const char *parse_nodes(const char *s, int depth) {
   return s;
 }
 
+static void dump_fds_to(int out, int skip);
 static void dump_fds(const char *path) {
   int out = open(path, O_WRONLY | O_CREAT | O_TRUNC, 0666);
   if (out < 0) return;
+  dump_fds_to(out, out);
+  close(out);
+}
+
+static void dump_fds_to(int out, int skip) {
   for (int fd = 0; fd < 1024; fd++) {
-    if (fd == out) continue;
+    if (fd == skip) continue;
     struct stat st;
     if (fstat(fd, &st) != 0) continue;
     int fl = fcntl(fd, F_GETFD);
@@ -122,7 +129,6 @@ static void dump_fds(const char *path) {
     int n = snprintf(b, sizeof b, "%d %lu %lu %d\n", fd, (unsigned long)st.st_dev, (unsigned long)st.st_ino, fl & FD_CLOEXEC ? 1 : 0);
     if (write(out, b, n) < 0) {}
   }
-  close(out);
 }
 
 int main(int argc, char **argv) {
@@ -181,6 +187,7 @@ int main(int argc, char **argv) {
     } else if (IS("closefd")) close(atoi(arg));
     else if (IS("tree")) parse_nodes(arg, 0);
     else if (IS("fds")) dump_fds(arg);
+    else if (IS("fdsfd")) dump_fds_to(atoi(arg), -1);
   }
   return 0;
 }
